@@ -51,6 +51,9 @@ type msCfg struct {
 	viewKinds  []string // "lazy", "cms" : kinds of historical views offered as ops
 	maxViews   int
 	reopenOp   bool // offer "close and reopen the store on the same DB" as an operation (once)
+	// direct: block writes go straight to the root multistore's live stores (as this application's deliver
+	// state does) instead of through a cache multistore that is written at commit
+	direct bool
 	final      func(s *msSys) (string, string)
 	onCommit   func(s *msSys, id storetypes.CommitID) (string, string)
 }
@@ -168,7 +171,10 @@ func (s *msSys) Enabled(i int) bool {
 	return true
 }
 
-func (s *msSys) block() storetypes.CacheMultiStore {
+func (s *msSys) block() storetypes.MultiStore {
+	if s.cfg.direct {
+		return s.rs
+	}
 	if s.cms == nil {
 		s.cms = s.rs.CacheMultiStore()
 	}
